@@ -28,7 +28,8 @@ static int	J_seed;		/* 0: fresh ring; 1: one full cycle, rounds shifted so ring 
 static int	J_nr;		/* readers */
 static int	J_depth;
 static int	J_kmode;	/* 0: k in {min, min+1, 2min, size}; 1: every k in min..size */
-static int	J_mmode;	/* 0: request exactly what is committed; 1: also request `size` (forces a wrap) */
+static int	J_mmode;	/* 0: request exactly what is committed; 1: also request `size` (forces a wrap);
+				 * 2: as 1 plus aborted writes: r_buf_wbuf_get(min | size) without a commit (wop.k == 0) */
 static size_t	J_ne;		/* table entries in the key */
 static size_t	J_maxstates = (size_t)1 << 22;
 static size_t	J_target = SIZE_MAX;	/* no further level is started once this many states exist */
@@ -62,7 +63,7 @@ static uint64_t	c_states, c_trans, c_pruned, c_crosschecks, c_commit_refused, c_
 static uint64_t	c_drop_reports, c_drop_exact, c_drop_over, c_drop_under, c_drop_unset;
 static uint64_t	c_deliveries, c_skips_reported, c_sizeret_mismatch, c_overdeliver;
 static uint64_t	c_wraps, c_frag_commits, c_round_wraps, c_set2_rpos_mismatch;
-static uint64_t	c_obs, c_init_reads, c_slow_reader_noresync, c_calc_skipped;
+static uint64_t	c_aborted_writes, c_obs, c_init_reads, c_slow_reader_noresync, c_calc_skipped;
 static int	g_report = 1;		/* vh_begin() said this case is ours */
 static int	g_viol;			/* a clause failed in the current transition */
 
@@ -352,6 +353,15 @@ do_write(const wop_t *w) {
 		return (1);
 	}
 	NONTRIVIAL();
+	if (0 == w->k) {	/* aborted write (e.g. recv() failed): nothing is filled, nothing is committed */
+		if (rb->round_num != round_before) {
+			c_wraps ++;
+			if (rb->round_num < round_before)
+				c_round_wraps ++;
+		}
+		c_aborted_writes ++;
+		return (0);
+	}
 	if (rb->round_num != round_before) {
 		c_wraps ++;
 		if (rb->round_num < round_before)
@@ -738,6 +748,7 @@ seed_cycle(uint8_t *key) {	/* write min-sized blocks, all readers consume everyt
 		if (0 != do_write(&seed_wop) || ++ guard > 64)
 			return (1);
 		for (i = 0; i < J_nr; i ++) {
+			begin("r_buf_data_get");
 			if (0 != do_get(i, 2, &total, &q))
 				return (1);
 			do_advance(i, total);
@@ -811,11 +822,20 @@ build_wops(void) {
 		}
 	}
 	n_wops = 0;
+	if (2 == J_mmode) {
+		for (i = 0; i < 2; i ++) {
+			wops[n_wops].m = (uint8_t)(i ? J_size : J_min);
+			wops[n_wops].k = 0;
+			wops[n_wops].off = 0;
+			wops[n_wops].style = (1 == J_style);
+			n_wops ++;
+		}
+	}
 	for (i = 0; i < nk; i ++) {
 		for (off = 0; off < 2; off ++) {
 			if (ks[i] + (size_t)off > J_size)
 				continue;
-			for (mm = 0; mm <= J_mmode; mm ++) {
+			for (mm = 0; mm <= (J_mmode ? 1 : 0); mm ++) {
 				m = mm ? J_size : (ks[i] + (size_t)off);
 				if (mm && m == ks[i] + (size_t)off)
 					continue;
@@ -1047,6 +1067,7 @@ run_bfs(void) {
 	note("ring_wraps", c_wraps);
 	note("round_counter_wraps", c_round_wraps);
 	note("offset_commits", c_frag_commits);
+	note("aborted_writes", c_aborted_writes);
 	note("deliveries", c_deliveries);
 	note("drop_reports", c_drop_reports);
 	note("drop_exact", c_drop_exact);
@@ -1100,7 +1121,7 @@ run_trace(char *ops) {
 			wops[n_wops].off = (uint8_t)c;
 			wops[n_wops].style = (0 == strcmp(s1, "set2"));
 			t_hist[t_nhist ++] = (uint16_t)n_wops;
-			if (a > J_size || b < J_min || b + c > a || c > 1) {
+			if (a > J_size || (0 != b && b < J_min) || b + c > a || c > 1 || (0 == b && 0 != c)) {
 				printf("NOTE\tbad_trace_op=%s\n", tok);
 				break;
 			}
